@@ -384,6 +384,10 @@ def run(ctx):
             through = any(x.k == "call" and (x.a[0] == q or x.a[0] in acc) for x in p.item.walk())
             if through:
                 r3.violation("%s:raw#%s" % (short, p.variant), "a raw typed-text candidate is built from the (curled) split value", site_of(b, p.bb))
+            elif p.kind != "push":
+                r3.violation("%s:raw#%s" % (short, p.variant), "the raw typed-text candidate is added through the duplicate-dropping helper: whether it equals the "
+                             "candidate before it depends on that candidate being curled or not, so the lists with the option on and off differ in length "
+                             "(a word the conversion leaves unchanged: one entry with the option off, two with it on)", site_of(b, p.bb))
             else:
                 r3.ok("%s:raw#%s/%s" % (short, p.variant, const_val(strip_refs(p.rankval)) if p.rankval is not None and strip_refs(p.rankval).k == "const" else "?"),
                       "raw text pushed from %r" % (pe,))
@@ -402,6 +406,9 @@ def run(ctx):
     r4.floor(4, "four curly quotes")
     r2.floor(8, "two builders × (guard, reached, result, order)")
     r3.floor(3, "emoticon literal, phonetic English, fixed English")
+    r5 = chk.rule("C17.R5", "the smart-quote option is a plain stored value", "turning smart quotes on changes a suggestion in exactly one way — 'on' is the value the front end set")
+    common.plain_options(r5, prog, ["get_smart_quote"])
+    r5.floor(1, "the option")
 
 
 def _chars_source(b, d, acc):
